@@ -20,7 +20,8 @@ RULE = ('three streams over the 13 table files, points3d.txt, the 3 feature desc
         'the specification-level parser; (layout) a table is rendered with free layout choices per line - blanks (space, tab, '
         'VT, FF, US) around every field, comment and blank lines anywhere after the version line, row permutation, \\n or '
         '\\r\\n, leading zeros and "+" on integers, alternative spellings of floats, duplicate keys, optional id filters - and '
-        'loaded by the real *_from_file reader; (malformed) wrong arity, non-numeric fields, unknown camera models, missing '
+        'loaded by the real *_from_file reader (incl. nested rigs in any row order with the sensor-id filter, and points3d.txt '
+        'without the optional column comment); (malformed) wrong arity, non-numeric fields, unknown camera models, missing '
         'rows: error-versus-value agreement between model and reader only. '
         'Non-trivial = at least one data row; distinct = distinct (file kind, text, filter).')
 TRUSTED = ['CPython float()/repr() on the tokens of each case (tables re-validated per case), int()/str.strip()/split(",") as '
@@ -82,7 +83,7 @@ def _expected_written(d, part):
 def _ids_for(rng, d, part):
     if part == 'rigs':
         ids = [s[0] for s in d['sensors']]
-        return rng.choice([None, None, ids])
+        return rng.choice([None, ids, ids])
     if part == 'trajectories':
         ids = [s[0] for s in d['sensors']] + sorted({r[0] for r in (d['rigs'] or [])})
     elif part.startswith('records_'):
@@ -288,11 +289,44 @@ def _malformed_case(rng, d, part):
 def gen_cases(rng, tier):
     cases = []
     n_data = 40 if tier == 'quick' else 400
+    # points3d.txt without the optional column comment (data already on the second line), or with it further down
+    for w in (3, 6):
+        for where in ('absent', 'absent-crlf', 'after-first-row', 'after-blank'):
+            rows = [[cc.gen_float(rng) for _ in range(w)] for _ in range(rng.randint(1, 3))]
+            lines = cc.render_rows(rng, 'points3d', rows, fancy=False)
+            hdr = cc.writer_header('points3d:%d' % w)
+            if where == 'after-first-row':
+                lines.insert(1, hdr)
+            elif where == 'after-blank':
+                lines = ['', hdr] + lines
+            eol = '\r\n' if where == 'absent-crlf' else '\n'
+            text = eol.join([cc.VERSION_LINE] + lines) + eol
+            cases.append({'kind': 'layout', 'part': 'points3d', 'text': text, 'ids': None, 'kp': None,
+                          'spec': {'width': w, 'rows': cc.jrows(rows)}, 'expect': cc.jrows(rows), 'width': w})
     for i in range(n_data):
         if i < 2:
             d = cc.gen_dataset(rng, present=set(cc.ALL_PARTS), size=3 + i)
+        elif i < 5:
+            # nested rigs; the layout stream renders their rows in any order (parent first, child first)
+            d = cc.gen_dataset(rng, present={'sensors', 'rigs', 'trajectories'}, size=3, nested_rigs=True)
         else:
             d = cc.gen_dataset(rng)
+        if 2 <= i < 5 and d['rigs']:
+            # the same nested rigs with the rows of each rig kept together, outermost rig first / innermost rig first
+            groups = {}
+            for r in d['rigs']:
+                groups.setdefault(r[0], []).append(r)
+            child_first = [g for g in groups.values()]
+            inner = {r[1] for r in d['rigs']} & set(groups)
+            child_first.sort(key=lambda g: 0 if g[0][0] in inner else 1)
+            ids = [x[0] for x in d['sensors']]
+            for order in (child_first, child_first[::-1]):
+                vrows = cc.flat_rows('rigs', [r for g in order for r in g])
+                text = cc.layout_text(rng, 'rigs', cc.render_rows(rng, 'rigs', vrows, fancy=False), fancy=False,
+                                      header=cc.writer_header('rigs'))
+                cases.append({'kind': 'layout', 'part': 'rigs', 'text': text, 'ids': ids, 'kp': None,
+                              'spec': {'width': 0, 'rows': cc.jrows(vrows)},
+                              'expect': cc.jrows(_expected_content('rigs', vrows, ids, None)), 'width': 0})
         present = [p for p in cc.ALL_PARTS if d[p] is not None and p != 'matches']
         # (written): every file of the dataset
         for p in present:
